@@ -162,6 +162,38 @@ pub fn run_c16<C: NatCtx>(v: &mut Env<C>) {
             }
             Err(_) => Out::Err,
         });
+        // SCALE (implementation only): 70001 per-ciphertext challenges against the documented derivation
+        // u_i = hash_to_exp(borsh{counter: i as 8 LE bytes, prefix: SHA-512(prefix transcript)}), recomputed here
+        if nn == 1 && v.small && v.p == big(23) {
+            let big_n = if quick { 70001usize } else { 300000 };
+            let us: Vec<BigUint> = sv::shuffle_us(&sh, &es, &eps, &cs_e, big_n, &label).unwrap().iter().map(C::x_val).collect();
+            // the prefix transcript: the model's stream compares its bytes; here only its digest is needed,
+            // obtained from the library's own first challenges would be circular, so rebuild it:
+            use strand::serialization::StrandSerialize;
+            let enc_vec = |bs: &[u8]| { let mut o = (bs.len() as u32).to_le_bytes().to_vec(); o.extend(bs); o };
+            let mut entries: Vec<(&str, Vec<u8>)> = vec![
+                ("cs", strand::serialization::StrandVectorE::<C>(cs_e.clone()).strand_serialize().unwrap()),
+                ("e_primes", strand::serialization::StrandVectorC::<C>(eps.clone()).strand_serialize().unwrap()),
+                ("es", strand::serialization::StrandVectorC::<C>(es.clone()).strand_serialize().unwrap()),
+                ("label", enc_vec(&label)),
+            ];
+            entries.sort_by(|a, b_| a.0.as_bytes().cmp(b_.0.as_bytes()));
+            let mut pre = (entries.len() as u32).to_le_bytes().to_vec();
+            for (k, val) in &entries {
+                pre.extend(enc_vec(k.as_bytes()));
+                pre.extend(enc_vec(val));
+            }
+            let ph = strand::util::hash(&pre);
+            let bad = (0..big_n).find(|&i| {
+                let mut m = 2u32.to_le_bytes().to_vec();
+                m.extend(enc_vec(b"counter"));
+                m.extend(enc_vec(&(i as u64).to_le_bytes()));
+                m.extend(enc_vec(b"prefix"));
+                m.extend(enc_vec(&ph));
+                us[i] != C::x_val(&ctx.hash_to_exp(&m))
+            });
+            v.h.check(us.len() == big_n && bad.is_none(), || format!("shuffle_proof_us({}) : {} challenges, the first that differs from the documented derivation is at position {:?} on {}", big_n, us.len(), bad, tok));
+        }
         // position counters far beyond the list length: n is a free parameter of shuffle_proof_us
         if nn <= 3 && (v.small && v.p == big(23) || !v.small && v.p.bits() < 100) {
             for big_n in [1025usize, 2050] {
@@ -329,6 +361,17 @@ pub fn run_c17<C: NatCtx>(v: &mut Env<C>) {
             let out = v.case("gens", vec![nu(3), b(&seed)], || Out::Ok(l(c2.generators(3, &sd).iter().map(|e| Val::Nat(C::e_val(e))).collect())));
             let want: Vec<Val> = (1..=3u64).map(|i| n(&ref_generator(&seed, i, C::kind() == 'B', &p, &q))).collect();
             v.h.check(out == Out::Ok(l(want)), || format!("generators(3) for a {}-byte seed differ from the documented derivation on {}", len, tok));
+        }
+    }
+    // SCALE (implementation only): long generator lists against the reference derivation, prefix stability
+    if v.small && v.p == big(23) {
+        for size in if quick { vec![4097usize, 70001] } else { vec![4097, 16385, 65537, 70001, 140000] } {
+            let seed = v.h.rng.bytes(9);
+            let gs: Vec<BigUint> = ctx.generators(size, &seed).iter().map(C::e_val).collect();
+            let bad = (0..gs.len()).find(|&i| gs[i] != ref_generator(&seed, i as u64 + 1, C::kind() == 'B', &p, &q));
+            v.h.check(gs.len() == size && bad.is_none(), || format!("generators({}) returned {} elements, the first that differs from the documented derivation is number {:?} on {}", size, gs.len(), bad.map(|i| i + 1), tok));
+            let short: Vec<BigUint> = ctx.generators(16, &seed).iter().map(C::e_val).collect();
+            v.h.check(gs.len() >= 16 && short[..] == gs[..16], || format!("generators({}) is not an extension of generators(16) on {}", size, tok));
         }
     }
     // different seeds give different lists (large groups)
